@@ -16,26 +16,44 @@ theorem purge_info_last (φ : Oracle) (fs : FS) (payload info : CPath) (h : ¬ F
       (s.get payload).isSome = true → s.get info = fs.get info := Proofs.C15.purge_info_last φ fs payload info h hp
 
 /-- Re-running the purge of an entry on any such state completes it (fault-free): payload and
-    info file are both gone. -/
-theorem purge_rerun_completes (fs : FS) (payload info : CPath) (s : FS)
+    info file are both gone — PROVIDED what is left of the payload is a well-formed tree.
+    As first stated (with `hs`, `hwf`, `hi` only) the claim is FALSE in the flat file-system model,
+    which allows states no real file system has; three counterexamples (`s` the initial state):
+      * an orphan below the payload (`/a` a directory, `/a/b/c` present, `/a/b` absent): `rmdir /a`
+        answers ENOTEMPTY although `/a` lists no entry;
+      * a mount point below the payload: `rmdir` answers EBUSY;
+      * the info path inside the payload (`info = payload/x`): it disappears with the payload and
+        `remove_file2(info)` then raises ENOENT.
+    The three added hypotheses exclude exactly these: `hout` (info not at or below the payload),
+    `htree` (at or below the payload, the parent of every present path is a directory), `hmnt`
+    (no mount point at or below the payload).  (`info` may be `payload`'s parent: `hi` suffices.) -/
+theorem purge_rerun_completes_partial (fs : FS) (payload info : CPath) (s : FS)
     (hs : s ∈ crashStates noFaults (purgePair (.ok payload) (.ok info)) fs)
     (hwf : ∀ q, (s.get q).isSome = true → q ∈ s.dom)
-    (hi : ∀ m t, s.get info ≠ some (.dir m t)) :
+    (hi : ∀ m t, s.get info ≠ some (.dir m t))
+    (hout : ¬ FS.under payload info = true)
+    (htree : ∀ q x, FS.under payload q = true → (s.get (q ++ [x])).isSome = true → s.isDirAt q = true)
+    (hmnt : ∀ q, FS.under payload q = true → s.isMount q = false) :
     let r := run noFaults (purgePair (.ok payload) (.ok info)) { fs := s }
     (s.get info).isSome = true → r.1 = .ok () ∧ r.2.fs.get payload = none ∧ r.2.fs.get info = none :=
-  Proofs.C15.purge_rerun_completes fs payload info s hs hwf hi
+  Proofs.C15.purge_rerun_completes_partial fs payload info s hs hwf hi hout htree hmnt
 
 /-- trash-restore (same-volume case: the move is one rename): in every state a kill can leave
-    behind the entry is complete in the trash (with its info file) or complete at its destination. -/
-theorem restore_crash_inv (fs : FS) (src dst info : CPath)
+    behind the entry is complete in the trash (with its info file) or complete at its destination —
+    PROVIDED the info path is not a directory that contains the destination (`hid`).
+    As first stated (without `hid`) the claim is FALSE: with `info = /a` a directory and
+    `dst = /a/b` (all of `hapart` holds), `remove_file(info)` falls back to `rmtree(/a)`, which
+    unlinks the freshly restored `/a/b`: a crash state with neither the payload nor the destination. -/
+theorem restore_crash_inv_partial (fs : FS) (src dst info : CPath)
     (hsrc : (fs.get src).isSome = true) (hnm : fs.isMount src = false) (hdst : fs.get dst = none)
     (hpar : fs.isDirAt (FS.parent dst) = true) (hdev : fs.dev (FS.parent src) = fs.dev (FS.parent dst))
     (hname : ∀ n, dst.getLast? = some n → n.length ≤ 255)
     (hapart : ¬ FS.under src dst = true ∧ ¬ FS.under dst src = true ∧ ¬ FS.under src info = true ∧ ¬ FS.under dst info = true)
-    (hnr : dst ≠ []) :
+    (hnr : dst ≠ [])
+    (hid : ¬ FS.under info dst = true ∨ ∀ m t, fs.get info ≠ some (.dir m t)) :
     ∀ s ∈ crashStates noFaults (restoreCore (.ok src) (.ok dst) (.ok info)) fs,
       ((∀ rel, s.get (src ++ rel) = fs.get (src ++ rel)) ∧ s.get info = fs.get info) ∨
       (∀ rel, s.get (dst ++ rel) = fs.get (src ++ rel)) :=
-  Proofs.C15.restore_crash_inv fs src dst info hsrc hnm hdst hpar hdev hname hapart hnr
+  Proofs.C15.restore_crash_inv_partial fs src dst info hsrc hnm hdst hpar hdev hname hapart hnr hid
 
 end TrashVerif.C15
